@@ -143,7 +143,19 @@ def inline_return_temporaries(tree) -> int:
                 for nm in n.names:
                     stores[nm] = stores.get(nm, 0) + 2
         params = {a.arg for a in fn.args.posonlyargs + fn.args.args + fn.args.kwonlyargs}
-        # pass 1: adjacent (tmp = e; return tmp) pairs per name   pass 2: inline the names all of whose uses are such pairs
+        # pass 1: adjacent (tmp = e; return tmp) / (tmp = e; if [not] tmp:) pairs per name
+        # pass 2: inline the names all of whose uses are such pairs
+        def use_of(b):
+            """the temporary a statement consumes as its whole head: `return t`, `if t:`, `if not t:`"""
+            if isinstance(b, ast.Return) and isinstance(b.value, ast.Name):
+                return b.value.id
+            if isinstance(b, ast.If):
+                t = b.test
+                if isinstance(t, ast.UnaryOp) and isinstance(t.op, ast.Not):
+                    t = t.operand
+                if isinstance(t, ast.Name):
+                    return t.id
+            return None
         pairs = {}
         blocks = []
         stack = [fn]
@@ -154,9 +166,8 @@ def inline_return_temporaries(tree) -> int:
                 for i in range(len(blk) - 1):
                     a, b = blk[i], blk[i + 1]
                     if isinstance(a, ast.Assign) and len(a.targets) == 1 and isinstance(a.targets[0], ast.Name) \
-                            and isinstance(b, ast.Return) and isinstance(b.value, ast.Name) \
-                            and b.value.id == a.targets[0].id and a.targets[0].id not in params:
-                        pairs[b.value.id] = pairs.get(b.value.id, 0) + 1
+                            and use_of(b) == a.targets[0].id and a.targets[0].id not in params:
+                        pairs[a.targets[0].id] = pairs.get(a.targets[0].id, 0) + 1
                 for st in blk:
                     if not isinstance(st, (ast.FunctionDef, ast.AsyncFunctionDef, ast.ClassDef)):
                         stack.append(st)
@@ -166,13 +177,20 @@ def inline_return_temporaries(tree) -> int:
             while i + 1 < len(blk):
                 a, b = blk[i], blk[i + 1]
                 if isinstance(a, ast.Assign) and len(a.targets) == 1 and isinstance(a.targets[0], ast.Name) \
-                        and a.targets[0].id in ok and isinstance(b, ast.Return) and isinstance(b.value, ast.Name) \
-                        and b.value.id == a.targets[0].id:
-                    new = ast.Return(value=a.value)
-                    ast.copy_location(new, a)
-                    new.end_lineno, new.end_col_offset = getattr(b, "end_lineno", None), getattr(b, "end_col_offset", None)
-                    blk[i:i + 2] = [new]
+                        and a.targets[0].id in ok and use_of(b) == a.targets[0].id:
+                    if isinstance(b, ast.Return):
+                        new = ast.Return(value=a.value)
+                        ast.copy_location(new, a)
+                        new.end_lineno, new.end_col_offset = getattr(b, "end_lineno", None), getattr(b, "end_col_offset", None)
+                        blk[i:i + 2] = [new]
+                    else:
+                        if isinstance(b.test, ast.UnaryOp):
+                            b.test.operand = a.value
+                        else:
+                            b.test = a.value
+                        del blk[i]
                     count += 1
+                    continue
                 i += 1
     return count
 
